@@ -1,6 +1,6 @@
 """C04 — well-formed in, well-formed out: the anchored mechanisms, decided per unit."""
 from mirsym import models_typst as T
-from . import lists, flows, mathargs
+from . import lists, flows, mathargs, imports
 
 EXPLANATION = (
     "Bounded symbolic execution (MIR->SMT, z3) of the mechanisms the property is anchored in; the oracle 'output re-parses without "
@@ -15,7 +15,8 @@ EXPLANATION = (
     "exactly where both neighbours allow it. (3) optional_paren / convert_expr_with_optional_paren (all 59 expression kinds) / "
     "parenthesize_if_necessary: delimiters appear exactly in the broken layout, matching, nested by tab_spaces; the wrapped expression "
     "is converted once, in Code/CodeCont mode; no wrapper when breaks are suppressed. (4) convert_args_in_math over child sequences of "
-    "{argument, comma, semicolon, whitespace, comments}: a line comment keeps its line break also before the closing parenthesis. Counterexamples are confirmed on a native "
+    "{argument, comma, semicolon, whitespace, comments}: a line comment keeps its line break also before the closing parenthesis. (5) convert_import with a comment before / after "
+    "the colon and bare, parenthesised or wildcard items: a line comment is followed by a hard line break. Counterexamples are confirmed on a native "
     "corpus of list constructs with comments (format then re-parse).")
 
 
@@ -30,6 +31,8 @@ def run(S):
     lists.report(S, 'C04', found)
     fm = mathargs.explore(S, 3 if S.tier == 'quick' else 4, want=('C04',))
     mathargs.report(S, 'C04', fm)
+    fi = imports.explore(S, want=('C04',))
+    imports.report(S, 'C04', fi)
     allw = set()
     for o in S.obls:
         allw |= set(o.witnesses)
